@@ -1213,7 +1213,7 @@ func renderPassDoc(fs []PassField) string {
 
 var specC09Pass = Register(&Spec[PassCase]{
 	Prop: "C09", Name: "passthrough",
-	Rule: "documents interleaving known fields (Package, Version, Depends, Tag list, Installed-Size int, Notes) and unique unknown X-* fields (single- and multi-line values) are unmarshalled into a struct embedding control.Paragraph; a generated subset of the known fields is then set to new values, cleared, or set from absent; the struct is marshalled. Oracle: unknown fields appear as the same subsequence with identical logical lines; every known field shows the struct's CURRENT rendering (absent when that is empty - an int is never empty); fields present on input keep their relative position; newly set fields come after them. Non-trivial: >= 2 unknown fields and >= 1 changed known field; distinct by (document, changes).",
+	Rule: "documents interleaving known fields (Package, Version, Depends, Tag list, Installed-Size int, Notes) and unique unknown X-* fields (single- and multi-line values; one in six named like a Go member of a library type - Epoch, Relations, CPU ... - or like the TYPE of a plain struct the destination embeds, PassExtra) are unmarshalled into a struct embedding control.Paragraph and a plain struct; a generated subset of the known fields is then set to new values, cleared, or set from absent; the struct is marshalled. Oracle: unknown fields appear as the same subsequence with identical logical lines; every known field shows the struct's CURRENT rendering (absent when that is empty - an int is never empty); fields present on input keep their relative position; newly set fields come after them. Non-trivial: >= 2 unknown fields and >= 1 changed known field; distinct by (document, changes).",
 	Check: func(c PassCase, r *Recorder) error {
 		unknown, changed := 0, 0
 		inputHas := map[string]string{}
